@@ -24,7 +24,7 @@ Proof.
     assert (Hh : h = header m). { rewrite H1. exact (firstn_app_exact (header m) (mdata m ++ concat (map enc ms))). }
     assert (Ha : abs Z s1 = mdata m ++ concat (map enc ms)). { rewrite H2. exact (skipn_app_exact (header m) (mdata m ++ concat (map enc ms))). }
     clear H1 H2. subst h. change (length (header m) <? 9)%nat with false. cbv iota.
-    destruct m as [ty cid data]. destruct Wm as [Hty [Hcid [Hlen Hb]]]. cbn [mty mcid mdata] in *.
+    destruct m as [ty cid data]. destruct Wm as [Hty [Hcid Hlen]]. cbn [mty mcid mdata] in *.
     set (m := {| mty := ty; mcid := cid; mdata := data |}) in *.
     change (skipn 5 (header m)) with (enc_i32 (Z.of_nat (length data))).
     change (firstn 1 (header m)) with (enc_i8 ty).
